@@ -36,16 +36,13 @@ TAGS = {
     16: 'reported best model is not a top-ranked eligible candidate',
     17: 'AIC is not -2LL + 2 * number of estimated parameters',
     18: 'likelihood-ratio test does not follow its definition',
-    19: 'strictness_eval_sound fails on the implementation: guards hold but the value is not the documented one',
+    19: 'strictness_eval_sound fails on the implementation: a further expression is not evaluated as documented',
     1001: 'oracle table does not cover a lookup (machinery)',
     1002: 'generated strictness expression is not well typed (machinery)',
 }
 CORR = (1, 2, 3, 4, 5, 6, 7)
 # oracle tag -> correspondence tags that must be absent for the faithful model to explain it
 ORACLE = {11: (1,), 12: (1,), 13: (1, 2), 14: (2,), 15: (1,), 16: (5, 1), 17: (3,), 18: (4,), 19: (2,)}
-FINDING_RSE = 'C19-RSE-REBOUND'
-FINDING_GRAD = 'C19-FZG-NAN-THETA-ROWS'
-FINDING_ROUND = 'C19-NEAR-BOUND-ROUNDING'
 
 SNAMES = ['minimization_successful', 'rounding_errors', 'sigdigs', 'maxevals_exceeded', 'rse', 'rse_theta',
           'rse_omega', 'rse_sigma', 'condition_number', 'final_zero_gradient', 'final_zero_gradient_theta',
@@ -1088,15 +1085,7 @@ def classify(ctx, spec, tags, info):
     status = 'ok'
     for t in oracle:
         explained = not any(c in tags for c in ORACLE[t])
-        fid = None
-        if t in (13, 14):
-            # excused only when a guard conjunct of strictness_eval_sound is false
-            if 201 in tags and ctx.open_finding(FINDING_RSE):
-                fid = FINDING_RSE
-            elif 202 in tags and ctx.open_finding(FINDING_GRAD):
-                fid = FINDING_GRAD
-            elif 204 in tags and ctx.open_finding(FINDING_ROUND):
-                fid = FINDING_ROUND
+        fid = None          # no open finding of the modelled part: every oracle failure is a violation
         if explained and fid:
             ctx.coverage.setdefault('known_hits', {}).setdefault(fid, 0)
             ctx.coverage['known_hits'][fid] += 1
@@ -1168,8 +1157,7 @@ def finding_probes(ctx):
             continue
         kept, verdicts, _, _ = run_specs(ctx, [f['witness']], 'finding-' + f['id'], quiet=True)
         tags = set(verdicts[0]) if verdicts else set()
-        guard_tag = {FINDING_RSE: 201, FINDING_GRAD: 202, FINDING_ROUND: 204}.get(f['id'])
-        if f['expect_tag'] in tags and guard_tag in tags and not any(c in tags for c in ORACLE[f['expect_tag']]):
+        if f['expect_tag'] in tags and not any(c in tags for c in ORACLE[f['expect_tag']]):
             ctx.known(f['id'])
         else:
             ctx.notes.append(f"finding_not_reproduced {f['id']} (tags {sorted(tags)})")
@@ -1249,9 +1237,6 @@ def run(ctx):
         'strictness_raises': sum(1 for i in infos for s in i['strict'] if s.startswith('(Err')),
         'strictness_true': sum(1 for i in infos for s in i['strict'] if s == '(Ok true)'),
         'strictness_false': sum(1 for i in infos for s in i['strict'] if s == '(Ok false)'),
-        'guard_rse_rebound_false': sum(1 for v in verdicts if 201 in v),
-        'guard_grad_nan_rows_false': sum(1 for v in verdicts if 202 in v),
-        'guard_near_round_false': sum(1 for v in verdicts if 204 in v),
         'tool_results': sum(1 for i in infos if 'best' in i),
         'tool_refusals': sum(1 for i in infos if 'tool_err' in i),
     }
